@@ -136,3 +136,16 @@ def partially_ordered_set_elements(ename, case, fail, obs):
         return False
     finally:
         sys.modules.pop("vt_known_mod", None)
+
+
+def hasrepr_unhashable(ename, case, fail, obs):
+    """KF-C01-2: an object recorded through HasRepr that sits inside a set / frozenset (or is a dict key) is written
+    as `HasRepr(...)` inside a set display; HasRepr defines __eq__ without __hash__, so evaluating the generated
+    code raises `TypeError: unhashable type: 'HasRepr'`."""
+    if ename != "values":
+        return False
+    if fail[0] == "C01" and fail[1] == "created_value_holds":
+        return "unhashable type: 'HasRepr'" in fail[2]
+    if fail[0] == "C18" and fail[1] == "finish_total":
+        return "unhashable type: 'HasRepr'" in fail[2]
+    return False
